@@ -58,9 +58,9 @@ def parse_output(fmt, text):
 	return out, None
 
 
-def run_query(w, fmt, extra, cwd=None):
+def run_query(w, fmt, extra, cwd=None, db=None):
 	out = w.sc.path(suffix='.' + fmt)
-	code, so, se, exc = run_cli(['-d', w.dbdir, 'query', '-o', out, '-f', fmt] + extra, cwd=cwd)
+	code, so, se, exc = run_cli(['-d', db or w.dbdir, 'query', '-o', out, '-f', fmt] + extra, cwd=cwd)
 	if code != 0 or not out.exists():
 		raise RuntimeError(f'gambit query failed: exit {code} {se[-300:]} {exc!r}')
 	text = out.read_text()
@@ -68,10 +68,12 @@ def run_query(w, fmt, extra, cwd=None):
 	return parse_output(fmt, text)
 
 
-def single_row(w, gi, fmt):
-	key = (gi, fmt)
+def single_row(w, gi, fmt, db=None, namesake=False):
+	"""the row the real CLI prints for that genome alone (positional, plain file) against that database"""
+	key = (gi, fmt, str(db), namesake)
 	if key not in _single:
-		rows, _ = run_query(w, fmt, ['--no-progress', w.genomes[gi]['path']])
+		g = w.genomes[gi]['namesake'] if namesake else w.genomes[gi]
+		rows, _ = run_query(w, fmt, ['--no-progress', g['path']], db=db)
 		assert len(rows) == 1
 		_single[key] = rows[0][1]
 	return _single[key]
@@ -93,7 +95,9 @@ def check(ctx, case):
 		ids, files = get_sequence_files(pos, lf, 'D')
 		real = '~' if ids is None else ';'.join(f'{i}|{f.path}' for i, f in zip(ids, files))
 		return [f'c08.seqfiles {strs(pos)} {"~" if lines is None else strs(lines)} {hx(real.encode())}'], []
-	singles = [single_row(w, gi, fmt) for gi in gs]
+	db = w.dbdir2 if case.get('db2') else None
+	nsk = case.get('namesake', [False] * len(gs))
+	singles = [single_row(w, gi, fmt, db=db, namesake=ns) for gi, ns in zip(gs, nsk)]
 	if case['kind'] == 'lib':
 		from gambit.db import ReferenceDatabase
 		from gambit.query import query, QueryParams, QueryInput
@@ -117,7 +121,15 @@ def check(ctx, case):
 	chan = case['chan']
 	use_alt = case.get('alt', [False] * len(gs))
 	if chan == 'pos':
-		paths = [str(w.genomes[gi]['alt'] if a else w.genomes[gi]['path']) for gi, a in zip(gs, use_alt)]
+		paths = []
+		for gi, a, ns in zip(gs, use_alt, nsk):
+			g = w.genomes[gi]
+			if ns:
+				paths.append(str(g['namesake']['path']))       # a different genome under the same file name (same label)
+			elif a == 'mm':
+				paths.append(str(w.multi_member_gz(g)))        # the same genome as a multi-member gzip file
+			else:
+				paths.append(str(g['alt'] if a else g['path']))
 		extra += paths
 		kind, srcs = 'p', paths
 	elif chan == 'list':
@@ -130,7 +142,7 @@ def check(ctx, case):
 		p, ids = w.sigfile([w.genomes[gi] for gi in gs], ids=[f'sig {i}:{w.genomes[gi]["name"]}' for i, gi in enumerate(gs)])
 		extra += ['-s', p]
 		kind, srcs = 's', ids
-	rows, header = run_query(w, fmt, extra, cwd=(w.decoy_cwd if case.get('decoy_cwd') else None))
+	rows, header = run_query(w, fmt, extra, cwd=(w.decoy_cwd if case.get('decoy_cwd') else None), db=db)
 	case['_nt'] = len(gs) >= 2 and len(set(singles)) > 1
 	return [f'c08.rows {kind} {strs(srcs)} {strs(singles)} {strs(r[0] for r in rows)} {strs(r[1] for r in rows)}'], []
 
@@ -166,7 +178,19 @@ def run(ctx):
 			g = [rng.randrange(n) for _ in range(k)] if rng.random() < 0.3 else rng.sample(range(n), min(k, n))
 			fmt = rng.choice(['csv', 'csv', 'json', 'archive'])
 			chan = rng.choice(['pos', 'pos', 'list', 'sigs'])
-			sub({'kind': 'cli', 'g': g, 'fmt': fmt, 'chan': chan, 'alt': [rng.random() < 0.4 for _ in g], 'progress': rng.random() < 0.4,
+			nsk = [False] * len(g)
+			alt = [rng.random() < 0.4 for _ in g]
+			if chan == 'pos':
+				alt = [('mm' if rng.random() < 0.15 else a) for a in alt]
+				if rng.random() < 0.4:
+					# the genome and its namesake (same label, different content) in one batch, in either order
+					i = rng.randrange(len(g))
+					g = g[:i + 1] + [g[i]] + g[i + 1:]
+					alt = alt[:i + 1] + [False] + alt[i + 1:]
+					nsk = nsk[:i + 1] + [True] + nsk[i + 1:]
+					if rng.random() < 0.5:
+						nsk[i], nsk[i + 1] = nsk[i + 1], nsk[i]
+			sub({'kind': 'cli', 'g': g, 'fmt': fmt, 'chan': chan, 'alt': alt, 'namesake': nsk, 'db2': rng.random() < 0.4, 'progress': rng.random() < 0.4,
 			     'cores': rng.choice([None, None, 1, 2, 4]) if chan != 'sigs' else rng.choice([None, 2]), 'blank': rng.random() < 0.3,
 			     'decoy_cwd': rng.random() < 0.5}, 'cli')
 		for j in range(ctx.q(40, 300)):
